@@ -121,6 +121,13 @@ CLAIMS = {
         "note": "Bounded: two invocations, repeated members <= 2, strings <= 2 chars, the listed mismatch family. Trusted: rustfmt and proc_macro2's fallback (generator run outside the compiler), E2 std models (HashMap as association list). Outside: the proc-macro glue in a2lmacros/src/lib.rs, other invocations, integer sequences (generated code does not compile).",
         "technique": "SMT-based bounded symbolic execution of the MIR of freshly generated code (z3 bit-vectors/FP for scalar members, fork per member kind / instance), native replay",
     },
+    "C20": {
+        "engine": "E2-mirsym x 2 builds",
+        "text": "Relational check of two builds of the crate made from the current tree: A = as shipped, B = a2lfile/src/specification.rs replaced by what the in-tree generator (a2lmacros::a2lspec::a2l_specification, run outside the compiler on the DSL in specification_orig.rs) produces now. The same observation harnesses are executed symbolically on the MIR of both builds; every completed path is exported as (input shape, path condition, observations); for every pair of paths over the same input shape z3 is asked for an input that satisfies both path conditions and makes an observation differ (load result, diagnostics, written text). unsat for all pairs = the builds are observationally equal on every input of the bounded families; a model is replayed natively on both builds before it is reported.",
+        "design_ref": "DESIGN.md section 4 C20",
+        "note": "Bounded to the observation harness families (see assumptions in the evidence); NOT a claim over all inputs. Trusted: rustfmt, proc_macro2 fallback, E2 std models (validated natively on sampled paths of both builds). Outside: the proc-macro glue in a2lmacros/src/lib.rs, elements that no observation document contains.",
+        "technique": "SMT-based product check (z3) over the path conditions and observations of two symbolically executed builds (MIR), native replay on both builds",
+    },
     "C18": {
         "engine": "E2-mirsym",
         "text": "For a fixed family of eight A2ML definitions the whole loader (A2ML capture, runtime A2ML parser, type-directed IF_DATA parser, fallback parser, writer, ifdata_cleanup) is executed by the symbolic executor on a conforming and on a deviating instance, with LF and CRLF line ends: validity flag is exact, every token survives load and write, and ifdata_cleanup removes exactly the invalid blocks; definitions whose sequence element matches zero tokens must not make loading spin.",
@@ -133,7 +140,6 @@ CLAIMS = {
 _PENDING = "check not built yet in this revision of /verif (see DESIGN.md section 7 for the order of work)"
 _NA_FIXED = {
     "C04": "grammar conformance of ~185 generated parsers against the spec DSL is grammar-driven enumeration with concrete runs; the solver has nothing to decide and neither engine reaches a whole load (DESIGN.md section 4 C04)",
-    "C20": "relational equivalence of two 36k-line generated programs over all inputs is far outside both engines; the cheap decision (normalise and diff token streams) is not solver-based (DESIGN.md section 4 C20)",
 }
 NOT_APPLICABLE = []
 for i in range(1, 21):
